@@ -140,16 +140,48 @@ func (vc *VC) footprint(fi *FuncInfo) *footprintT {
 // callee's footprint keep their values only on objects allocated before the call.
 func (vc *VC) callHavoc(s *State, spec *FuncSpec, fi *FuncInfo, pre *SpecEnv) {
 	if spec.ModAll {
-		vc.havocHeap(s, "modifies * of "+spec.Key)
+		vc.havocHeap(s, "modifies * of "+shortKey(spec.Key))
 		return
 	}
 	ms := vc.modSetOf(spec, pre)
-	var fp *footprintT
-	if fi != nil && !spec.Trusted {
-		fp = vc.footprint(fi)
-	} else {
-		fp = &footprintT{arrays: map[string]*Sort{}}
+	// the callee's modifies clause must lie within the caller's
+	if vc.entry != nil && !vc.modAll && !vc.quiet {
+		var mns []string
+		for n := range ms {
+			mns = append(mns, n)
+		}
+		sort.Strings(mns)
+		for _, n := range mns {
+			a := ms[n]
+			site := "call"
+			if vc.curStmt != nil {
+				site = vc.siteName("stmt", vc.curStmt)
+			}
+			if a.whole {
+				ta := vc.topMods[n]
+				vc.oblige(s, "frame", site+":call:"+n, "callee "+shortKey(spec.Key)+" may modify all of "+n+", which the caller's modifies clause must cover", vc.curPos, BoolLit(ta != nil && ta.whole))
+				continue
+			}
+			for _, ref := range a.refs {
+				ta := vc.topMods[n]
+				if ta != nil && ta.whole {
+					continue
+				}
+				alts := []*Term{Ge(ref, vc.entry.alloc)}
+				if ta != nil {
+					for _, x := range ta.refs {
+						alts = append(alts, Eq(ref, x))
+					}
+				}
+				vc.oblige(s, "frame", site+":call:"+n, "location modified by callee "+shortKey(spec.Key)+" must be covered by the caller's modifies clause", vc.curPos, Or(alts...))
+			}
+		}
 	}
+	// Cells of objects allocated by the callee are >= the caller's alloc at the call: the caller has no facts about
+	// them (every quantified heap fact is guarded by "allocated"), so they need no havoc; only the modifies
+	// clause is forgotten.
+	fp := &footprintT{arrays: map[string]*Sort{}}
+	_ = fi
 	names := map[string]*Sort{}
 	for n, a := range ms {
 		names[n] = a.sort
@@ -199,50 +231,11 @@ func (vc *VC) callHavoc(s *State, spec *FuncSpec, fi *FuncInfo, pre *SpecEnv) {
 	na := Fresh("alloc", SInt)
 	s.assume(Ge(na, s.alloc))
 	s.alloc = na
-}
-
-// checkFrame: every heap location not covered by the modifies clause is unchanged for objects allocated at entry.
-func (vc *VC) checkFrame(s *State, spec *FuncSpec, post *SpecEnv) {
-	if spec.ModAll {
-		return
-	}
-	pos := vc.fn.Decl.Pos()
-	if s.epoch != "0" {
-		vc.obligeKeep(s, "frame", "heap", "function calls code that may modify the whole heap but does not declare 'modifies *'", pos, False)
-		return
-	}
-	pre := post.inState(vc.entry)
-	pre.old = nil
-	ms := vc.modSetOf(spec, pre)
-	var names []string
-	for n := range s.heap {
-		names = append(names, n)
-	}
-	sort.Strings(names)
-	alloc0 := vc.entry.alloc
-	for _, name := range names {
-		cur := s.heap[name]
-		old := vc.heapArr(vc.entry, name, vc.heapSorts[name])
-		if cur == old {
-			continue
+	for _, n := range ns {
+		vc.assumeFrame(s, n)
+		if f := vc.rootFact(n, s.heap[n], s.alloc); f != True {
+			s.assume(f)
 		}
-		a := ms[name]
-		if a != nil && a.whole {
-			continue
-		}
-		if cur.Sort.Key == nil || len(name) > 2 && name[:2] == "G." {
-			vc.obligeKeep(s, "frame", name, "global "+name+" is not in the modifies clause and must be unchanged", pos, Eq(cur, old))
-			continue
-		}
-		r := BoundVar("fr", SInt)
-		conds := []*Term{Le(IntLit(0), r), Lt(r, alloc0)}
-		if a != nil {
-			for _, x := range a.refs {
-				conds = append(conds, Not(Eq(r, x)))
-			}
-		}
-		goal := Forall([]*Term{r}, Implies(And(conds...), Eq(Select(cur, r), Select(old, r))))
-		vc.obligeKeep(s, "frame", name, "heap array "+name+" unchanged outside the modifies clause (objects allocated at entry)", pos, goal)
 	}
 }
 
